@@ -465,10 +465,11 @@ func clipb(b []byte) []byte {
 // ---------------------------------------------------------------- text builder
 
 var (
-	CMPPValid   = []int{0, 8, 9, 15}
-	CMPPInvalid = []int{1, 3, 4, 7, 16, 255, -1}
+	CMPPValid = []int{0, 8, 9, 15}
+	// numbers outside 0..255 that are congruent to a valid coding modulo 256 included
+	CMPPInvalid = []int{1, 3, 4, 7, 16, 255, -1, 256, 264, 265, 271, -241, -248}
 	SMPPValid   = []int{0, 1, 3, 8, 99}
-	SMPPInvalid = []int{2, 4, 9, 15, 100, 255, -1}
+	SMPPInvalid = []int{2, 4, 9, 15, 100, 255, -1, 256, 257, 259, 264, 355, -248, -255}
 )
 
 // single-unit and multi-unit characters per reference coding
@@ -476,7 +477,7 @@ var singles = map[ref.TextKind][]rune{
 	ref.KASCII:  []rune("abcXYZ019 .,!@$"),
 	ref.KLatin1: []rune("abcXYZ019 éÿÀñ£"),
 	// includes code units whose octets look like specials of other codings (0x1B low octet, GB18030 lead / digit octets, 0xD8 low octet)
-	ref.KUCS2:        []rune("a中文é€Ω日本語字\u011b\u4e1b\u1b1b\u30d8\u8130\u001b"),
+	ref.KUCS2:        []rune("a中文é€Ω日本語字\u011b\u4e1b\u1b1b\u30d8\u8130\u001b\u200d\ufe0f\u0301"),
 	ref.KGB18030:     []rune("abc123 XYZ"),
 	ref.KGSMUnpacked: []rune("abcXYZ019 @£$ΔΩèà\r\n"),
 	ref.KGSMPacked:   []rune("abcXYZ019 @£$ΔΩèà\r\n"),
@@ -576,30 +577,32 @@ func BuildText(t *rapid.T, k ref.TextKind, forceOut bool, proto string, requeste
 			r = ss[sm.Intn(len(ss))]
 		}
 		if outAt >= 0 && units >= outAt {
-			r = outOfRepertoire(proto, requested)
+			for _, x := range outOfRepertoire(t, proto, requested) {
+				rs = append(rs, x)
+				units += width(x)
+			}
 			outAt = -1
+			continue
 		}
 		rs = append(rs, r)
 		units += width(r)
 	}
 	if forceOut && outAt >= 0 {
-		rs = append(rs, outOfRepertoire(proto, requested))
+		rs = append(rs, outOfRepertoire(t, proto, requested)...)
 	}
 	return string(rs)
 }
 
-// outOfRepertoire returns a character the requested coding cannot represent
-// (so the UCS-2 fallback must be taken); for UCS-2/GB18030 there is none and a CJK character is returned.
-func outOfRepertoire(proto string, requested int) rune {
+// outOfRepertoire returns characters the requested coding cannot represent (so the UCS-2 fallback must
+// be taken): a CJK character, or - for the alphabetic codings - a base letter followed by a combining
+// mark, or a singleton canonical equivalent of a repertoire letter (Ohm / Kelvin / Angstrom sign): texts
+// a well-meant normalisation would fold into the repertoire.
+func outOfRepertoire(t *rapid.T, proto string, requested int) []rune {
 	k, ok := KindOf(proto, requested)
-	if !ok {
-		return 0x4E2D
+	if ok && (k == ref.KASCII || k == ref.KLatin1 || k.IsGSM()) && rapid.Bool().Draw(t, "outkind") {
+		return []rune(rapid.SampledFrom([]string{"e\u0301", "a\u0300", "u\u0308", "n\u0303", "\u2126", "\u212a", "\u212b", "\u037e", "A\u030a"}).Draw(t, "outseq"))
 	}
-	switch k {
-	case ref.KASCII, ref.KLatin1, ref.KGSMUnpacked, ref.KGSMPacked:
-		return 0x4E2D
-	}
-	return 0x4E2D
+	return []rune{0x4E2D}
 }
 
 // GridCases enumerates the boundary grid: coding x multi-unit character x
@@ -648,17 +651,39 @@ func GridCases() []Case {
 							if perr != nil || len(pu) > pos {
 								continue
 							}
-							rs := []rune(pre)
-							for i := 0; i < (pos-len(pu))/fw; i++ {
-								rs = append(rs, fill)
+							// neighbours: the character right before the multi-unit character (CR / '@' matter to the
+							// packed form) and the one right after it (a joiner or variation selector belongs to it visually)
+							neighbours := [][2]rune{{0, 0}}
+							if pre == "" {
+								if k.IsGSM() {
+									neighbours = append(neighbours, [2]rune{'\r', 0}, [2]rune{'@', 0})
+								}
+								if k == ref.KUCS2 {
+									neighbours = append(neighbours, [2]rune{0, 0x200D}, [2]rune{0, 0xFE0F}, [2]rune{0, 0x0301})
+								}
 							}
-							rs = append(rs, m)
-							total := kk*per + extra
-							for u := pos + w; u < total; u += fw {
-								rs = append(rs, singles[k][1])
+							for _, nb := range neighbours {
+								rs := []rune(pre)
+								for i := 0; i < (pos-len(pu))/fw; i++ {
+									rs = append(rs, fill)
+								}
+								if nb[0] != 0 && len(rs) > 0 {
+									rs[len(rs)-1] = nb[0]
+								}
+								rs = append(rs, m)
+								total := kk*per + extra
+								u := pos + w
+								if nb[1] != 0 {
+									rs = append(rs, nb[1])
+									u += fw
+									total += 6 * fw
+								}
+								for ; u < total; u += fw {
+									rs = append(rs, singles[k][1])
+								}
+								out = append(out, Case{Proto: x.proto, Coding: x.coding, Ref: byte(kk*16 + d + 8), Text: vk.Hex([]byte(string(rs))),
+									Note: fmt.Sprintf("grid %v U+%04X k=%d offset=%d extra=%d prefix=%q before=%U after=%U", k, m, kk, d, extra, pre, nb[0], nb[1])})
 							}
-							out = append(out, Case{Proto: x.proto, Coding: x.coding, Ref: byte(kk*16 + d + 8), Text: vk.Hex([]byte(string(rs))),
-								Note: fmt.Sprintf("grid %v U+%04X k=%d offset=%d extra=%d prefix=%q", k, m, kk, d, extra, pre)})
 						}
 					}
 				}
